@@ -31,12 +31,14 @@ ASSUMPTIONS = [
 ]
 ALPHABET = "stored value x length x count x encoding x sequence pair"
 BOUND = {"quick": "products as in the rule", "thorough": "adds 4-entry locators in every order and 3-snapshot tables in full product"}
-EXPECT_OUTCOMES = ["qcow2-ext", "qcow2-bigext", "qcow2-backing", "qcow2-snap", "qcow2-header", "vhdx-seq", "vhdx-meta", "vhdx-locator",
+EXPECT_OUTCOMES = ["qcow2-manysnap", "qcow2-ext", "qcow2-bigext", "qcow2-backing", "qcow2-snap", "qcow2-header", "vhdx-seq", "vhdx-meta", "vhdx-locator",
                    "vmdk-desc", "vmdk-embedded", "vhd", "vdi", "hds", "prl"]
 
 
 def shards(tier):
     out = []
+    for n in ((255, 256, 257, 65535, 65536, 65537) if tier == "quick" else (255, 256, 257, 1000, 65535, 65536, 65537, 70000)):
+        out.append({"kind": "qcow2-manysnap", "tier": tier, "only_n": n})
     for kind in ("qcow2-ext", "qcow2-bigext", "qcow2-backing", "qcow2-header", "vhdx-seq", "vhdx-meta", "vmdk-desc", "vmdk-embedded", "vhd",
                  "vdi", "hds", "prl"):
         out.append({"kind": kind, "tier": tier})
@@ -50,6 +52,8 @@ def shards(tier):
 def run_shard(shard, ctx):
     gen = globals()["_gen_" + shard["kind"].replace("-", "_")]
     cases = gen(shard["tier"])
+    if "only_n" in shard:
+        cases = [c for c in cases if c["n"] == shard["only_n"]]
     if "slice" in shard:
         cases = sliced(cases, *shard["slice"])
     for c in cases:
@@ -274,6 +278,45 @@ def _case_qcow2_snap(case, ctx):
         q.read(100)
         _cmp(ctx, d, f"image attributes after reading the image again ({n})", exposed(), before)
     return d
+
+
+def _case_qcow2_manysnap(case, ctx):
+    """A snapshot table with n entries (all naming the L1 table of one real snapshot): every stored entry is exposed, in order."""
+    from dissect.hypervisor.disk.qcow2 import QCow2
+
+    from mc.builders import qcow2 as B
+
+    n = case["n"]
+    img, _ = B.build(["N"], [0], 12, 3, snapshots=[{"states": ["N"], "slots": [1], "id": "1", "name": "s", "layer": 2}])
+    raw = bytearray(img.tobytes())
+    snap_off, = struct.unpack_from(">Q", raw, 64)
+    l1_off, l1_size = struct.unpack_from(">QI", raw, snap_off)
+    tab = bytearray()
+    for i in range(n):
+        sid = str(i + 1).encode()
+        nm = b"snap-%d" % (i + 1)
+        ent = struct.pack(">QIHHIIQII", l1_off, l1_size, len(sid), len(nm), 1700000000 + (i & 0xFFFF), 0, i, 0, 16) + struct.pack(">QQ", 0, 4096) + sid + nm
+        ent += b"\0" * ((-len(ent)) % 8)
+        tab += ent
+    new_off = (len(raw) + 4095) // 4096 * 4096
+    raw += b"\0" * (new_off - len(raw)) + tab
+    struct.pack_into(">I", raw, 60, n)
+    struct.pack_into(">Q", raw, 64, new_off)
+    q = QCow2(io.BytesIO(bytes(raw)))
+    snaps = q.snapshots
+    ctx.nontrivial += 1
+    d = []
+    _cmp(ctx, d, "len(snapshots)", len(snaps), n)
+    for i in sorted({0, 1, n // 2, 255, 256, 65534, 65535, 65536, n - 2, n - 1}):
+        if 0 <= i < min(n, len(snaps)):
+            _cmp(ctx, d, f"snapshots[{i}].id_str", snaps[i].id_str, str(i + 1))
+            _cmp(ctx, d, f"snapshots[{i}].name", snaps[i].name, "snap-%d" % (i + 1))
+    return d
+
+
+def _gen_qcow2_manysnap(tier):
+    for n in (255, 256, 257, 65535, 65536, 65537) if tier == "quick" else (255, 256, 257, 1000, 65535, 65536, 65537, 70000):
+        yield {"n": n}
 
 
 def _gen_qcow2_header(tier):
